@@ -170,8 +170,14 @@ Section Buf.
 
   (** [A]: the active list of the running collection pass ([[]] outside the finalization and
       drop passes). *)
+  (** I-tc: every buffered object has tracing counter 0 (what trace_counting relies on when it
+      pops the buffer; the conjunct defect F1 broke).  Stated on the mark: under [Imk] the
+      PC-marked objects are exactly the members of [pc m]. *)
+  Definition tcz (m : machine) : Prop :=
+    forall o x, get m o = Some x -> h_mark (o_hdr x) = PC -> h_tc (o_hdr x) = 0.
+
   Definition Ibuf (A : list id) (m : machine) : Prop :=
-    Imk A [] m /\ (A <> [] -> st_collecting m = true).
+    Imk A [] m /\ (A <> [] -> st_collecting m = true) /\ tcz m.
 
   (** the invariant modulo model-detected misbehaviour *)
   Definition GI (Ls Qs : list id) (m : machine) : Prop := dirty m \/ Imk Ls Qs m.
@@ -238,8 +244,9 @@ Section Buf.
   Proof. intros C [D|I]; [left; eapply dirty_core | right; eapply Imk_core]; eassumption. Qed.
   Lemma G_core A m m' : core_eq m m' -> G A m -> G A m'.
   Proof.
-    intros C [D|[I HA]]; [left; eapply dirty_core; eassumption|right].
-    split; [eapply Imk_core; eassumption|]. destruct C as (_ & _ & _ & _ & -> & _). exact HA.
+    intros C [D|(I & HA & Hz)]; [left; eapply dirty_core; eassumption|right].
+    split; [eapply Imk_core; eassumption|]. destruct C as (Eh & _ & _ & _ & -> & _).
+    split; [exact HA|]. intros o x E. unfold get in *. rewrite Eh in E. eauto.
   Qed.
 
   (** ** Emitting events *)
@@ -440,42 +447,98 @@ Section Buf.
   Qed.
 
 
-  (** ** [mild]: steps that preserve the frame and the invariant for every pair of lists *)
+  (** ** [mild]: steps that preserve the frame, the invariant for every pair of lists, and I-tc *)
   Definition mild (m m' : machine) : Prop :=
-    frame m m' /\ forall Ls Qs, GI Ls Qs m -> GI Ls Qs m'.
+    frame m m' /\ (forall Ls Qs, GI Ls Qs m -> GI Ls Qs m') /\
+    (forall Ls Qs, Imk Ls Qs m -> tcz m -> dirty m' \/ tcz m').
+
+  Lemma mild_intro m m' :
+    frame m m' -> (forall Ls Qs, GI Ls Qs m -> GI Ls Qs m') -> (tcz m -> tcz m') -> mild m m'.
+  Proof. intros F H Hz. split; [exact F|]. split; [exact H|]. intros _ _ _ Z. right. auto. Qed.
 
   Lemma mild_refl m : mild m m.
-  Proof. split; [apply frame_refl|auto]. Qed.
+  Proof. apply mild_intro; [apply frame_refl|auto|auto]. Qed.
   Lemma mild_trans m1 m2 m3 : mild m1 m2 -> mild m2 m3 -> mild m1 m3.
-  Proof. intros [F1 H1] [F2 H2]. split; [eapply frame_trans; eassumption|auto]. Qed.
+  Proof.
+    intros (F1 & H1 & Z1) (F2 & H2 & Z2). split; [eapply frame_trans; eassumption|]. split; [auto|].
+    intros Ls Qs I Z. destruct (Z1 Ls Qs I Z) as [D|Z']; [left; eapply frame_dirty; eassumption|].
+    destruct (H1 Ls Qs (or_intror I)) as [D|I']; [left; eapply frame_dirty; eassumption|].
+    eapply Z2; eassumption.
+  Qed.
   Lemma mild_frame m m' : mild m m' -> frame m m'.
   Proof. intros [F _]. exact F. Qed.
   Lemma mild_GI Ls Qs m m' : mild m m' -> GI Ls Qs m -> GI Ls Qs m'.
-  Proof. intros [_ H]. apply H. Qed.
+  Proof. intros (_ & H & _). apply H. Qed.
   Lemma mild_G A m m' : mild m m' -> G A m -> G A m'.
   Proof.
-    intros [F H] [D|[I HA]]; [left; eapply frame_dirty; eassumption|].
-    destruct (H A [] (or_intror I)) as [D|I']; [left; exact D|right].
-    split; [exact I'|]. rewrite (fr_coll _ _ F). exact HA.
+    intros (F & H & Z) [D|(I & HA & Hz)]; [left; eapply frame_dirty; eassumption|].
+    destruct (H A [] (or_intror I)) as [D|I']; [left; exact D|].
+    destruct (Z A [] I Hz) as [D|Hz']; [left; exact D|right].
+    split; [exact I'|]. split; [|exact Hz']. rewrite (fr_coll _ _ F). exact HA.
+  Qed.
+
+  Lemma tcz_heap m m' : heap m' = heap m -> tcz m -> tcz m'.
+  Proof. intros Eh Z o x E. unfold get in *. rewrite Eh in E. eauto. Qed.
+  Lemma tcz_upd o f m :
+    tcz m ->
+    (forall x, get m o = Some x -> h_mark (o_hdr (f x)) = PC -> h_tc (o_hdr (f x)) = 0) ->
+    tcz (upd o f m).
+  Proof.
+    intros Z Hf o' y E Hm. apply get_upd_Some in E as (x & E & ->).
+    destruct (decide (o = o')) as [<-|]; [apply (Hf x E Hm)|eauto].
   Qed.
 
   Lemma mild_core m m' : core_eq m m' -> mild m m'.
-  Proof. intros C. split; [apply frame_core, C|intros Ls Qs; apply GI_core, C]. Qed.
+  Proof.
+    intros C. apply mild_intro; [apply frame_core, C|intros Ls Qs; apply GI_core, C|].
+    apply tcz_heap, C.
+  Qed.
   Lemma mild_emit e m : uf_ev e = false -> mild m (emit e m).
-  Proof. intros He. split; [apply frame_emit|intros Ls Qs; apply GI_emit, He]. Qed.
+  Proof.
+    intros He. apply mild_intro; [apply frame_emit|intros Ls Qs; apply GI_emit, He|].
+    apply tcz_heap. reflexivity.
+  Qed.
   Lemma mild_emit_bad b o m : b <> Underflow -> mild m (emit_bad b o m).
   Proof. intros Hb. apply mild_emit. destruct b; try reflexivity. congruence. Qed.
-  Lemma mild_upd_at o f m : keeps_at m o f -> mild m (upd o f m).
+
+  (** the update does not create a buffered object with a non-zero tracing counter *)
+  Definition tc_ok_at (m : machine) (o : id) (f : obj -> obj) : Prop :=
+    forall x, get m o = Some x -> h_mark (o_hdr x) = PC -> h_tc (o_hdr x) = 0 ->
+              h_tc (o_hdr (f x)) = 0.
+
+  Lemma mild_upd_at o f m : keeps_at m o f -> tc_ok_at m o f -> mild m (upd o f m).
   Proof.
-    intros Hf. split; [apply frame_upd; intros x E; apply (Hf x E)|intros Ls Qs; apply GI_upd, Hf].
+    intros Hf Ht. apply mild_intro;
+      [apply frame_upd; intros x E; apply (Hf x E)|intros Ls Qs; apply GI_upd, Hf|].
+    intros Z. apply tcz_upd; [exact Z|]. intros x E Hm. destruct (Hf x E) as (Hmk & _).
+    rewrite Hmk in Hm. apply (Ht x E Hm), (Z _ _ E Hm).
   Qed.
-  Lemma mild_upd o f m : keeps f -> mild m (upd o f m).
-  Proof. intros Hf. apply mild_upd_at, keeps_keeps_at, Hf. Qed.
-  Lemma mild_uhdr o f m : (forall h, h_mark (f h) = h_mark h) -> mild m (uhdr o f m).
-  Proof. intros Hf. apply mild_upd, keeps_hdr, Hf. Qed.
+  Lemma mild_upd o f m :
+    keeps f -> (forall x, h_tc (o_hdr x) = 0 -> h_tc (o_hdr (f x)) = 0) -> mild m (upd o f m).
+  Proof. intros Hf Ht. apply mild_upd_at; [apply keeps_keeps_at, Hf|]. intros x _ _. apply Ht. Qed.
+  Lemma mild_uhdr o f m :
+    (forall h, h_mark (f h) = h_mark h) -> (forall h, h_tc h = 0 -> h_tc (f h) = 0) ->
+    mild m (uhdr o f m).
+  Proof. intros Hf Ht. apply mild_upd; [apply keeps_hdr, Hf|]. intros x. cbn. apply Ht. Qed.
   Lemma mild_uhdr_at o f m :
-    (forall x, get m o = Some x -> h_mark (f (o_hdr x)) = h_mark (o_hdr x)) -> mild m (uhdr o f m).
-  Proof. intros Hf. apply mild_upd_at. intros x E. cbn. auto. Qed.
+    (forall x, get m o = Some x -> h_mark (f (o_hdr x)) = h_mark (o_hdr x)) ->
+    (forall x, get m o = Some x -> h_tc (f (o_hdr x)) = h_tc (o_hdr x)) ->
+    mild m (uhdr o f m).
+  Proof.
+    intros Hf Ht. apply mild_upd_at.
+    - intros x E. cbn. auto.
+    - intros x E _ Hz. cbn. rewrite (Ht x E). exact Hz.
+  Qed.
+  (** a header update on an object that is not buffered *)
+  Lemma mild_uhdr_notpc o f m :
+    (forall h, h_mark (f h) = h_mark h) ->
+    (dirty m \/ forall x, get m o = Some x -> h_mark (o_hdr x) <> PC) ->
+    mild m (uhdr o f m).
+  Proof.
+    intros Hf Hn. split; [apply frame_uhdr|]. split; [intros Ls Qs; apply GI_uhdr, Hf|].
+    intros Ls Qs _ Z. destruct Hn as [D|Hn]; [left; exact D|right].
+    apply tcz_upd; [exact Z|]. intros x E Hm. cbn in Hm. rewrite Hf in Hm. destruct (Hn x E Hm).
+  Qed.
 
   (** *** remove_from_list / add_to_list *)
   Lemma is_in_pc_get m o :
@@ -531,11 +594,32 @@ Section Buf.
     - cbn. split; [discriminate|tauto].
   Qed.
 
+  Lemma tcz_remove_from_list o m : tcz m -> tcz (remove_from_list o m).
+  Proof.
+    intros Z. unfold remove_from_list. destruct (is_in_pc (hdr_of m o)); [|exact Z].
+    destruct (pc_alive m); [|exact Z].
+    apply (tcz_heap (uhdr o (set_mark NM) m)).
+    - unfold dec_size. destruct (_ =? _); reflexivity.
+    - apply tcz_upd; [exact Z|]. intros x _ Hm. discriminate Hm.
+  Qed.
   Lemma mild_remove_from_list o m : mild m (remove_from_list o m).
   Proof.
-    split; [apply frame_remove_from_list|]. intros Ls Qs. apply GI_from.
+    apply mild_intro; [apply frame_remove_from_list| |apply tcz_remove_from_list].
+    intros Ls Qs. apply GI_from.
     - apply frame_remove_from_list.
     - intros I. right. apply Imk_remove_from_list, I.
+  Qed.
+  (** after [remove_from_list o] the object is not marked PC *)
+  Lemma remove_from_list_notpc o m x :
+    pc_alive m = true -> get (remove_from_list o m) o = Some x -> h_mark (o_hdr x) <> PC.
+  Proof.
+    intros Ha. unfold remove_from_list. destruct (is_in_pc (hdr_of m o)) eqn:Epc.
+    - rewrite Ha. intros E Hm.
+      assert (E' : get (uhdr o (set_mark NM) m) o = Some x).
+      { unfold dec_size in E. destruct (_ =? _); exact E. }
+      apply get_upd_Some in E' as (x0 & _ & ->). rewrite decide_True in Hm by reflexivity.
+      discriminate Hm.
+    - intros E. eapply is_in_pc_false; eassumption.
   Qed.
 
 
@@ -577,10 +661,18 @@ Section Buf.
       eapply ext_trans; [|apply fr_ext, frame_uhdr]. apply ext_log_eq. reflexivity.
   Qed.
 
+  Lemma tcz_add_to_list o m : tcz m -> tcz (add_to_list o m).
+  Proof.
+    intros Z. unfold add_to_list. destruct (is_in_pc (hdr_of m o)); [exact Z|].
+    destruct (pc_alive m); [|exact Z].
+    apply tcz_upd; [|intros x _ _; reflexivity].
+    eapply tcz_heap; [|exact Z]. destruct (_ && _); reflexivity.
+  Qed.
   Lemma mild_add_to_list o m x :
     get m o = Some x -> o_box x <> BNotYet -> mild m (add_to_list o m).
   Proof.
-    intros Ex Hbx. split; [apply frame_add_to_list|]. intros Ls Qs. apply GI_from.
+    intros Ex Hbx. apply mild_intro; [apply frame_add_to_list| |apply tcz_add_to_list].
+    intros Ls Qs. apply GI_from.
     - apply frame_add_to_list.
     - apply (Imk_add_to_list _ _ _ _ x); assumption.
   Qed.
@@ -596,16 +688,23 @@ Section Buf.
   Lemma inc_rc_default_mark h : h_mark (default h (inc_rc h)) = h_mark h.
   Proof. destruct (inc_rc h) as [h'|] eqn:E; [apply (inc_rc_mark _ _ E)|reflexivity]. Qed.
 
+  Lemma dec_rc_tc h h' : dec_rc h = Some h' -> h_tc h' = h_tc h.
+  Proof. unfold dec_rc. destruct (h_rc h =? 0); [discriminate|]. intros [= <-]. reflexivity. Qed.
+  Lemma inc_rc_tc h h' : inc_rc h = Some h' -> h_tc h' = h_tc h.
+  Proof. unfold inc_rc. destruct (h_rc h =? max_rc); [discriminate|]. intros [= <-]. reflexivity. Qed.
+  Lemma inc_rc_default_tc h : h_tc (default h (inc_rc h)) = h_tc h.
+  Proof. destruct (inc_rc h) as [h'|] eqn:E; [apply (inc_rc_tc _ _ E)|reflexivity]. Qed.
+
   Lemma mild_uhdr_const o h m :
-    h_mark h = h_mark (hdr_of m o) -> mild m (uhdr o (fun _ => h) m).
+    h_mark h = h_mark (hdr_of m o) -> h_tc h = h_tc (hdr_of m o) -> mild m (uhdr o (fun _ => h) m).
   Proof.
-    intros Hm. apply mild_uhdr_at. intros x E. rewrite Hm, (hdr_of_get _ _ _ E). reflexivity.
+    intros Hm Ht. apply mild_uhdr_at; intros x E; rewrite ?Hm, ?Ht, (hdr_of_get _ _ _ E); reflexivity.
   Qed.
 
   Lemma mild_dec_rc_m o m : mild m (dec_rc_m o m).
   Proof.
     unfold dec_rc_m. destruct (dec_rc (hdr_of m o)) as [h|] eqn:E.
-    - apply mild_uhdr_const, (dec_rc_mark _ _ E).
+    - apply mild_uhdr_const; [apply (dec_rc_mark _ _ E)|apply (dec_rc_tc _ _ E)].
     - apply mild_emit_bad. discriminate.
   Qed.
 
@@ -672,8 +771,17 @@ Section Buf.
 
   Lemma mild_dealloc o m : mild m (dealloc K o m).
   Proof.
-    split; [apply frame_dealloc|]. intros Ls Qs. apply GI_from; [apply frame_dealloc|].
-    apply Imk_dealloc.
+    apply mild_intro; [apply frame_dealloc| |].
+    - intros Ls Qs. apply GI_from; [apply frame_dealloc|]. apply Imk_dealloc.
+    - intros Z. unfold dealloc. destruct (get m o) as [x|] eqn:Ex; [|exact Z].
+      destruct (box_layout K x) as [sz al].
+      match goal with |- tcz (emit _ (upd o ?f ?m1)) =>
+        apply (tcz_heap (upd o f m1)); [reflexivity|]; apply tcz_upd;
+        [apply (tcz_heap m); [destruct (o_box x); destruct (_ <? _); reflexivity|exact Z]|]
+      end.
+      intros y Ey Hm.
+      assert (Ey' : get m o = Some y) by (destruct (o_box x); destruct (_ <? _); exact Ey).
+      exact (Z _ _ Ey' Hm).
   Qed.
 
   (** *** box_alloc: only ever applied to the object created just before *)
@@ -746,7 +854,7 @@ Section Buf.
       - rewrite lookup_app_l in E by (eapply lookup_lt_Some, Eo). left. congruence.
       - right. split; [reflexivity|]. apply lookup_ge_None_1 in Eo.
         rewrite lookup_app_r in E by exact Eo. destruct (o - length (heap m))%nat; cbn in E; [congruence|discriminate]. }
-    split.
+    apply mild_intro.
     - split; [apply ext_log_eq; reflexivity|reflexivity|apply N.le_refl|reflexivity|].
       intros o x E. exists x. auto.
     - intros Ls Qs [D|I]; [left; exact D|right].
@@ -765,6 +873,7 @@ Section Buf.
       + intros o z E. destruct (Hnew o z E) as [E'|[En ->]]; [eauto|]. auto.
       + unfold bytes in *. cbn. rewrite bytes_of_app, H9. rewrite bytes_of_cons.
         unfold osize at 1. rewrite Hb. change (bytes_of []) with 0. lia.
+    - intros Z o z E Hz. destruct (Hnew o z E) as [E'|[_ ->]]; [eauto|congruence].
   Qed.
 
   Lemma mild_new_node P cls m : mild m (new_node P cls m).1.
@@ -872,10 +981,13 @@ Ltac mild_core_tac := solve [auto 1 with mildset nocore].
   (eapply mild_trans; [|apply mild_new_map]) : mild.
 (** updates of non-header, non-box object fields, and of header fields other than the mark *)
 #[export] Hint Extern 3 (mild _ _ (upd _ _ _)) =>
-  (eapply mild_trans; [|solve [apply mild_upd; intros ?; repeat split; reflexivity]]) : mild.
+  (eapply mild_trans;
+   [|solve [apply mild_upd; [intros ?; repeat split; reflexivity|intros ? Htc; exact Htc]]]) : mild.
 #[export] Hint Extern 3 (mild _ _ (uhdr _ _ _)) =>
   (eapply mild_trans;
-   [|solve [apply mild_uhdr; intros ?; first [reflexivity|apply inc_rc_default_mark]]]) : mild.
+   [|solve [apply mild_uhdr;
+            [intros ?; first [reflexivity|apply inc_rc_default_mark]
+            |intros ? Htc; first [exact Htc|reflexivity|rewrite inc_rc_default_tc; exact Htc]]]]) : mild.
 
 Ltac mild_solve := solve [eauto 40 with mild].
 
